@@ -245,3 +245,21 @@ class OrderedIdentitySet(object):
 def deterministic_sessions(cluster):
     cluster.sessions = OrderedIdentitySet()
     return cluster
+
+
+def deterministic_futures(sim):
+    """number the executor futures and hash them by that number.  The driver keeps futures in sets
+    (Session._initial_connect_futures, Cluster.on_up) and e.g. Session.__init__ blocks on
+    `any(f.result() for f in <set>)`, i.e. on whichever future the set yields first: with id()-based
+    hashes that is a function of memory addresses and a case would not replay identically.
+    Call after make_cluster (wraps the submit of the executors created so far)."""
+    import itertools
+    from sim.world import SimFuture
+    counter = itertools.count(1)
+    sim.patch.set(SimFuture, "__hash__", lambda self: self.__dict__.get("_seq", 0))
+    for ex in sim.executors:
+        def submit(fn, *a, _orig=ex.submit, **k):
+            f = _orig(fn, *a, **k)
+            f._seq = next(counter)
+            return f
+        ex.submit = submit
